@@ -53,7 +53,7 @@ theorem lookup_emit_none (d : Desc) (r : Rec) (k : String) : ∀ (ms : List MFie
 theorem lookup_emit (d : Desc) (r : Rec) (k : String) : ∀ (ms : List MField), (ms.map (·.key)).Nodup →
     lookup k (ms.filterMap (emit (fun _ v => v) d r)) =
       (match ms.find? (fun m => m.key == k) with
-       | some m => if guard (tcOfGo d m.goName) m.guard (r.fld m.goName) then some (r.fld m.goName) else none
+       | some m => if guard (tcOfGo d m.goName) m.guard (r.fld m.goName) then some (written m.guard (r.fld m.goName)) else none
        | none => none)
   | [], _ => rfl
   | m :: ms, hn => by
@@ -90,7 +90,7 @@ def flatSpec (d : Desc) (o : Obj) (k : String) : Option JV :=
   if refTaken d o then (if k = "$ref" then some (fldVal d o "Ref") else none)
   else
     match d.marsh.find? (fun m => m.key == k) with
-    | some m => if guard (tcOfGo d m.goName) m.guard (fldVal d o m.goName) then some (fldVal d o m.goName)
+    | some m => if guard (tcOfGo d m.goName) m.guard (fldVal d o m.goName) then some (written m.guard (fldVal d o m.goName))
                 else (if k ∈ d.dels then none else lookup k o)
     | none => if k ∈ d.dels then none else lookup k o
 
@@ -106,7 +106,7 @@ theorem flatSpec_none (d : Desc) (o : Obj) (k : String) (hr : refTaken d o = fal
 theorem flatSpec_some (d : Desc) (o : Obj) (k : String) (m : MField) (hr : refTaken d o = false)
     (hf : d.marsh.find? (fun m => m.key == k) = some m) :
     flatSpec d o k =
-      if guard (tcOfGo d m.goName) m.guard (fldVal d o m.goName) then some (fldVal d o m.goName)
+      if guard (tcOfGo d m.goName) m.guard (fldVal d o m.goName) then some (written m.guard (fldVal d o m.goName))
       else (if k ∈ d.dels then none else lookup k o) := by
   simp [flatSpec, hr, hf]
 
@@ -139,9 +139,9 @@ theorem flatRT_lookup (d : Desc) (o : Obj) (k : String)
 /-! ### what the guard classes mean for the type classes -/
 
 /-- only defaults are omitted -/
-theorem compatW_keeps (tc : TC) (g : Guard) (v : JV) (h : compatW tc g = true)
+theorem compat_keeps (tc : TC) (g : Guard) (v : JV) (h : compat tc g = true)
     (hd : isDefault tc v = false) : guard tc g v = true := by
-  cases tc <;> cases g <;> simp [compatW, compat] at h <;>
+  cases tc <;> cases g <;> simp [compat] at h <;>
     cases v <;> simp_all [isDefault, guard, JV.isNull, JV.isEmptyStr, JV.isFalse, JV.isZeroNum, JV.isEmptyColl]
 
 /-- a non-default value is what the decoder stores -/
@@ -149,24 +149,32 @@ theorem decode_of_not_default (tc : TC) (v : JV) (hd : isDefault tc v = false) :
     decode tc (some v) = v := by
   cases v <;> simp_all [isDefault, decode, JV.isNull]
 
-/-- a zero value is written only by an unconditional write -/
-theorem compatW_zero (tc : TC) (g : Guard) (h : compatW tc g = true)
-    (hz : guard tc g (zero tc) = true) : g = .always := by
-  cases tc <;> cases g <;> simp [compatW, compat] at h <;>
-    simp_all [guard, zero, JV.isNull, JV.isEmptyStr, JV.isFalse, JV.isZeroNum, JV.isEmptyColl]
+/-- a non-default value is written as it is -/
+theorem written_of_not_default (tc : TC) (g : Guard) (v : JV) (hd : isDefault tc v = false) :
+    written g v = v := by
+  cases v <;> cases g <;> simp_all [isDefault, written, JV.isNull]
 
-/-- what is written is read back unchanged (strict agreement) -/
+/-- a zero value is written only by an unconditional write -/
+theorem compat_zero (tc : TC) (g : Guard) (h : compat tc g = true)
+    (hz : guard tc g (zero tc) = true) : g.uncond = true := by
+  cases tc <;> cases g <;> simp [compat] at h <;>
+    simp_all [guard, zero, Guard.uncond, JV.isNull, JV.isEmptyStr, JV.isFalse, JV.isZeroNum, JV.isEmptyColl]
+
+/-- what is written is read back unchanged, passes the guard again and is written unchanged again -/
 theorem compat_stable (tc : TC) (g : Guard) (x : Option JV) (h : compat tc g = true)
-    (hg : guard tc g (decode tc x) = true) : decode tc (some (decode tc x)) = decode tc x := by
+    (hg : guard tc g (decode tc x) = true) :
+    decode tc (some (written g (decode tc x))) = written g (decode tc x) ∧
+    guard tc g (written g (decode tc x)) = true ∧
+    written g (written g (decode tc x)) = written g (decode tc x) := by
   cases x with
   | none =>
     cases tc <;> cases g <;> simp [compat] at h <;>
-      simp_all [guard, decode, zero, JV.isNull, JV.isEmptyStr, JV.isFalse, JV.isZeroNum, JV.isEmptyColl]
+      simp_all [guard, decode, zero, written, JV.isNull, JV.isEmptyStr, JV.isFalse, JV.isZeroNum, JV.isEmptyColl]
   | some v =>
     cases tc <;> cases g <;> simp [compat] at h <;> cases v <;>
-      simp_all [guard, decode, zero, JV.isNull, JV.isEmptyStr, JV.isFalse, JV.isZeroNum, JV.isEmptyColl]
+      simp_all [guard, decode, zero, written, JV.isNull, JV.isEmptyStr, JV.isFalse, JV.isZeroNum, JV.isEmptyColl]
 
-/-- what is omitted stays omitted when it comes back as the zero value (strict agreement) -/
+/-- what is omitted stays omitted when it comes back as the zero value -/
 theorem compat_omitted (tc : TC) (g : Guard) (v : JV) (h : compat tc g = true)
     (hg : guard tc g v = false) : guard tc g (zero tc) = false := by
   cases tc <;> cases g <;> simp [compat] at h <;>
@@ -253,7 +261,7 @@ theorem mapM_ok_of_forall {α β : Type} (f : α → Res β) (g : α → β) :
 
 theorem filter_map_eq_filterMap_emit (d : Desc) (r : Rec) : ∀ (ms : List MField),
     (ms.filter (fun m => guard (tcOfGo d m.goName) m.guard (r.fld m.goName))).map
-        (fun m => (m.key, r.fld m.goName)) = ms.filterMap (emit (fun _ v => v) d r)
+        (fun m => (m.key, written m.guard (r.fld m.goName))) = ms.filterMap (emit (fun _ v => v) d r)
   | [] => rfl
   | m :: ms => by
     simp only [List.filter_cons, List.filterMap_cons, emit]
@@ -264,14 +272,14 @@ theorem filter_map_eq_filterMap_emit (d : Desc) (r : Rec) : ∀ (ms : List MFiel
     struct kind is the flat one. -/
 theorem marshalDeep_of_children_fixed (f : Shape → JV → Res JV) (d : Desc) (r : Rec)
     (h : ∀ m ∈ d.marsh, guard (tcOfGo d m.goName) m.guard (r.fld m.goName) = true →
-          f (shapeOfGo d m.goName) (r.fld m.goName) = .ok (r.fld m.goName)) :
+          f (shapeOfGo d m.goName) (written m.guard (r.fld m.goName)) = .ok (written m.guard (r.fld m.goName))) :
     marshalDeep f d r = .ok (marshal d r) := by
   unfold marshalDeep marshal marshalWith
   split
   · rfl
   · have := mapM_ok_of_forall
-      (fun (m : MField) => (f (shapeOfGo d m.goName) (r.fld m.goName)).map (fun v' => (m.key, v')))
-      (fun m => (m.key, r.fld m.goName))
+      (fun (m : MField) => (f (shapeOfGo d m.goName) (written m.guard (r.fld m.goName))).map (fun v' => (m.key, v')))
+      (fun m => (m.key, written m.guard (r.fld m.goName)))
       (d.marsh.filter (fun m => guard (tcOfGo d m.goName) m.guard (r.fld m.goName)))
       (by
         intro m hm
